@@ -40,7 +40,7 @@ func TestC20_EonKeysPublished(t *testing.T) {
 	rec.AddRule("keyper database (real schema on pgfake) with 1-2 keyper sets containing the keyper and several eons per set; per polling tick 0-4 rows are inserted into outgoing_eon_keys the way a finished DKG does, over 1-5 ticks; mode broadcast (TestMessaging records the signed EonPublicKey message) or callback (records arguments); the publication mechanism always accepts. Oracle: over the whole history the multiset of published (eon, activation block, keyper-set index, key bytes) equals the multiset of inserted rows, each exactly once, the broadcast messages carry a valid signature of the keyper and its instance id, and the table is empty at the end. non-trivial = some tick had >= 2 pending keys; distinct by history descriptor")
 	rec.Assume("pgfake executes the repository's schema and queries like PostgreSQL")
 	ctx := context.Background()
-	runRapid(t, N(1000, 20000), func(rt *rapid.T) {
+	runRapid(t, N(1000, 500000), func(rt *rapid.T) {
 		n := newDBNode(corekeyper.Definition, 2)
 		defer n.Close()
 		me := rapid.IntRange(0, 2).Draw(rt, "me")
